@@ -347,11 +347,10 @@ func (c *ExecCtx) lockInv(st *State, fieldKey string, lockExpr ast.Expr, pos tok
 		binds["self"] = b
 	}
 	for _, cl := range invs {
-		t := c.specBool(st, c.oldState, cl, pos, binds)
 		if assume {
-			st.assumeT(t)
+			st.assumeT(c.specBoolAssume(st, c.oldState, cl, pos, binds))
 		} else {
-			u.oblige(st, "lockinv", t, pos, "lock invariant at release: "+cl.Src)
+			u.oblige(st, "lockinv", c.specBool(st, c.oldState, cl, pos, binds), pos, "lock invariant at release: "+cl.Src)
 		}
 	}
 }
